@@ -100,6 +100,18 @@ def trace_fn(ctx, world):
         ctx.fail("A13.unbox", "trace:independent return", f"{q}:independent-return", loc, f"the independent path does not return (result, None) (found {found})", "a function whose output does not depend on the input")
 
 
+def _fresh_wrapper(ctx, world, outer, loc):
+    """every call of primitive() / notrace_primitive() returns a NEW wrapper: the rule tables (primitive_vjps,
+    primitive_jvps, notrace_primitives) are keyed by the identity of that object, so handing back the argument (an
+    "already wrapped" shortcut) makes rules registered for the new primitive overwrite those of the old one"""
+    alts = getattr(world, "alt_returns", {}).get((TR, outer), [])
+    if not alts:
+        ctx.ob("A13.unbox", f"{outer}: every path returns a new wrapper", True, loc)
+    else:
+        cond, pol, val = alts[0]
+        ctx.fail("A13.unbox", f"{outer}:fresh", f"autograd.tracer.{outer}:returns-argument", loc, f"{outer}() returns `{str(val)[:50]}` instead of a new wrapper when `{str(cond)[:60]}` is {pol}: rule tables are keyed by the wrapper's identity, so rules defined for the result are written onto the function that was passed in", "q = primitive(np.exp); defvjp(q, custom_rule): np.exp itself now differentiates with custom_rule (checkpoint(p) of a bare primitive p recurses forever)")
+
+
 # --------------------------------------------------------------------------------------------- primitive wrapper
 def wrapper(ctx, world):
     ctx.describe("A13.unbox/wrapper", "primitive.f_wrapped: only the boxes of the top trace (as returned by find_top_boxed_args) are replaced by their ._value (one level); the wrapper re-enters itself on those values (never f_raw while boxes may remain); f_raw is called with the original arguments only when no argument is boxed; the answer is boxed with the trace id and node type returned by find_top_boxed_args; parents and argnums are projections of the same boxed_args sequence; the node constructor receives (ans, f_wrapped, argvals, kwargs, argnums, parents)")
@@ -108,6 +120,7 @@ def wrapper(ctx, world):
     node = clo_w.fnode
     loc = loc_of(m, node)
     q = "autograd.tracer.primitive.f_wrapped"
+    _fresh_wrapper(ctx, world, "primitive", loc_of(m, outer_fn))
     f_raw = osyms["#0"]
     args = T("sym", name="args", role="param", star=True)
     kwargs_s = T("sym", name="kwargs", role="param", dstar=True)
@@ -285,6 +298,7 @@ def notrace_wrapper(ctx, world):
     clo_n, top_n, osy_n, m, outer_n, osc_n = returned_closure(world, TR, "notrace_primitive")
     node = clo_n.fnode
     loc = loc_of(m, node)
+    _fresh_wrapper(ctx, world, "notrace_primitive", loc_of(m, outer_n))
     q = "autograd.tracer.notrace_primitive.f_wrapped"
     f_raw = osy_n["#0"]
     args = T("sym", name="args", role="param", star=True)
@@ -355,7 +369,8 @@ def find_top(ctx, world):
     a_gt = lambda a: a.op == "cmp" and a.opname == "Lt" and is_top(a.l) and is_tr(a.r)  # canonical form of trace > top
     a_ge = lambda a: a.op == "cmp" and a.opname == "Lt" and is_tr(a.l) and is_top(a.r)  # its negation is trace >= top
     a_eq = lambda a: a.op == "cmp" and a.opname == "Eq" and ((is_tr(a.l) and is_top(a.r)) or (is_top(a.l) and is_tr(a.r)))
-    pair = lambda t: t.op in ("tuple", "list") and len(t.elts) == 2 and is_num(t.elts[0]) and is_arg(t.elts[1])
+    # the (argnum, box) pair: written out from the two components, or the element of enumerate(args) as a whole
+    pair = lambda t: (t.op in ("tuple", "list") and len(t.elts) == 2 and is_num(t.elts[0]) and is_arg(t.elts[1])) or (t.op == "iterelem" and t.src is it)
 
     def classify(c):
         """reset / append / keep / odd for one path of an iteration"""
@@ -622,6 +637,7 @@ def trace_id_uses(ctx, world):
                     reads.append(x)
             # a packed state may only be unpacked (same arity), returned, or rebound: then packing an id into it is a copy
             packed_ok = set()
+            sub_reads = []
             for nm_, (ar, pos) in packed.items():
                 good = ar > 0
                 for x in own:
@@ -631,9 +647,15 @@ def trace_id_uses(ctx, world):
                             continue
                         if isinstance(px, ast.Assign) and px.value is x and len(px.targets) == 1 and isinstance(px.targets[0], (ast.Tuple, ast.List)) and len(px.targets[0].elts) == ar and all(isinstance(t_, ast.Name) for t_ in px.targets[0].elts):
                             continue
+                        if isinstance(px, ast.Subscript) and px.value is x and isinstance(px.ctx, ast.Load) and isinstance(px.slice, ast.Constant) and type(px.slice.value) is int and -ar <= px.slice.value < ar:
+                            # state[k]: a component read; when k is a trace position it is a read of the id
+                            if (px.slice.value % ar) in pos:
+                                sub_reads.append(px)
+                            continue
                         good = False
                 if good:
                     packed_ok.add(nm_)
+            reads.extend(sub_reads)
             for rd in reads:
                 n += 1
                 ok, why = _use_ok(world, mod, rd, tainted)
